@@ -186,7 +186,7 @@ pub fn check(c: &Case, stats: &mut Stats) -> CheckResult {
 fn strategy(tier: Tier) -> BoxedStrategy<Case> {
     let max = if tier == Tier::Quick { 18 } else { 50 };
     let cfg = GenCfg::small().terms(2, max).recs(6).standard().with_flags(true).names(NameMode::Capped);
-    let paths = prop_oneof![6 => Just(PathSel::Bin(3)), 2 => Just(PathSel::Bin(2)), 1 => Just(PathSel::Bin(1)), 2 => Just(PathSel::Jax), 1 => Just(PathSel::RoundTrip), 1 => Just(PathSel::BuilderDefaults)];
+    let paths = prop_oneof![6 => Just(PathSel::Bin(3)), 2 => Just(PathSel::Bin(2)), 1 => Just(PathSel::Bin(1)), 2 => Just(PathSel::Jax), 1 => Just(PathSel::JaxT), 1 => Just(PathSel::RoundTrip), 1 => Just(PathSel::BuilderDefaults)];
     (gen::facts(cfg), paths, prop_oneof![2 => Just(None), 3 => any::<u16>().prop_map(Some)], prop_oneof![19 => vec((any::<u16>(), 0u8..12), 1..=6), 1 => vec((any::<u16>(), 0u8..12), 31..=45)])
         .prop_map(|(facts, path, root_pick, leaf_picks)| {
             let m = Model::new(&facts);
